@@ -41,8 +41,8 @@ def bounds(tier, seed):
     vc = pt.version_cases(tier)
     return {
         "version_cases": len(vc), "patterns": sorted({p.text for p, _l, _a, _b in vc}),
-        "config_formats": list(formats(tier)), "max_patterns_per_file": "2 (+ 4 triples on one line in all orders)" if tier == "quick" else 3,
-        "max_files": 2 if tier == "quick" else 3, "regimes": list(QUICK_REGIMES if tier == "quick" else ALL_REGIMES),
+        "config_formats": list(formats(tier)), "max_patterns_per_file": "2 (+ 4 triples on one line in all orders)" if tier == "quick" else "3 (+ quadruples)",
+        "max_files": 2 if tier == "quick" else 5, "regimes": list(QUICK_REGIMES if tier == "quick" else ALL_REGIMES),
     }
 
 
@@ -105,6 +105,22 @@ def layouts(pat, old, new, tier, fmt):
         yield (f"two-files:{'+'.join(x.pid for x in s1)}/{'+'.join(x.pid for x in s2)}", "several-files", [f1, f2],
                [("a.txt", [fp.raw for fp in s1]), ("docs/b.txt", [fp.raw for fp in s2])], True)
     if tier != "quick":
+        # five files (the statement's upper bound), and four patterns in one file
+        five = small[:5]
+        if len(five) == 5:
+            regs = ["LF", "CRLF", "CR", "LF", "CRLF"]
+            fs = [projgen.build_file(f"d{i}/f{i}.txt", s_, "own-lines" if i % 2 else ("repeat", 2), "ascii", regs[i], bool(i % 2)) for i, s_ in enumerate(five)]
+            yield ("five-files", "several-files", fs, [(f.name, [fp.raw for fp in f.patterns]) for f in fs], True)
+        quads = [q for q in projgen.pattern_subsets(pat, 4) if len(q) == 4 and pt.compatible(q, old, new) and not any(fp.anchor_l or fp.anchor_r for fp in q)]
+        if fmt == "setup.cfg":
+            quads = [q for q in quads if all(pt.ini_expressible(fp.raw) for fp in q)]
+        for q in quads[:3]:
+            ids = "+".join(fp.pid for fp in q)
+            f = projgen.build_file("a.txt", q, "own-lines", "ascii", "LF", True)
+            yield (f"own-lines:{ids}:LF", "own-lines", [f], [("a.txt", [fp.raw for fp in q])], False)
+            for order in list(itertools.permutations(range(4)))[::5]:
+                f = projgen.build_file("a.txt", q, ("one-line+own", order), "ascii", "LF", True)
+                yield (f"one-line+own:{ids}:{order}", "several-patterns-on-one-line-and-again-on-own-lines", [f], [("a.txt", [fp.raw for fp in q])], False)
         for s1, s2, s3 in itertools.product(small[:4], small[:3], small[:3]):
             fs = [projgen.build_file(n, s, "own-lines", "ascii", r, True) for n, s, r in (("a.txt", s1, "LF"), ("b.txt", s2, "CR"), ("c.txt", s3, "CRLF"))]
             yield ("three-files", "several-files", fs, [(f.name, [fp.raw for fp in f.patterns]) for f in fs], False)
